@@ -242,6 +242,7 @@ struct Acc {
     hashes: HashSet<u64>,
     sigs: BTreeMap<String, SigAgg>,
     samples: Vec<J>,
+    fallback_sample: Option<J>,
 }
 
 impl Acc {
@@ -261,9 +262,12 @@ impl Acc {
         match verdict {
             Verdict::Held => {
                 self.held += 1;
+                let sub_empty = obs.sub_hashes.is_empty();
                 if obs.nontrivial { self.hashes.insert(h); }
                 for s in obs.sub_hashes { self.hashes.insert(s); }
-                if self.samples.len() < 3 && obs.nontrivial && origin == "random" { self.samples.push(case.clone()); }
+                let informative = obs.nontrivial || !sub_empty;
+                if self.samples.len() < 3 && informative && origin != "pinned" && text.len() < 20_000 { self.samples.push(case.clone()); }
+                if self.fallback_sample.is_none() && text.len() < 20_000 { self.fallback_sample = Some(case.clone()); }
             }
             Verdict::Inconclusive(reason) => { *self.inconclusive.entry(reason).or_insert(0) += 1; }
             Verdict::Violated(vs) => {
@@ -353,6 +357,7 @@ pub fn run_shard(mon: &dyn Monitor, args: &ShardArgs) -> J {
     for h in &acc.hashes { bytes.extend_from_slice(&h.to_le_bytes()); }
     write_file(&hpath, &bytes);
 
+    if acc.samples.is_empty() { if let Some(f) = acc.fallback_sample.take() { acc.samples.push(f); } }
     let violations: Vec<J> = acc.sigs.iter().map(|(sig, a)| json!({
         "sig": sig, "count": a.count, "detail": a.first_detail, "case": a.first_case,
     })).collect();
